@@ -225,7 +225,7 @@ BUILDER_OPS = (
     + [["env", "a", "9"], ["env", "home", "h"], ["env_extend", [["a", "1"], ["A", "2"], ["Home", "x"]]], ["env_remove", "a"]]
     + [["env_remove", k] for k in ("A", "B", "HOME", "NO_SUCH_VAR")] + [["env_clear"]]
     + [["cwd", d] for d in ("/tmp", "/")]
-    + [["stdin", k] for k in ("pipe", "null", "file", "data-xyz", "merge")]
+    + [["stdin", k] for k in ("pipe", "null", "file", "data-xyz", "data-", "merge")]
     + [["stdout", k] for k in ("pipe", "null", "file", "merge")]
     + [["stderr", k] for k in ("pipe", "null", "merge")]
     + [["detached"], ["clone"]]
